@@ -3,7 +3,8 @@ package main
 // C14 - caller attribution.  "c14 run <cells.ndjson> <trace.ndjson> <detail.ndjson>" issues every
 // cell of the table exported by spec/Caller.tla on the real library and records which frame of
 // the REAL call stack the record's `caller` member names.  "c14 list" prints the entry points
-// and chain depths this binary can execute.
+// and chain depths this binary can execute.  "c14 hist ..." (fam_caller_hist.go) executes histories
+// of logger configuration and observes every live logger after every step.
 //
 // Oracle for "which frame is it": the destination writer captures the complete call stack
 // (runtime.Callers + CallersFrames, which expands inlined calls into logical frames) while the
@@ -207,12 +208,16 @@ func c14Main(args []string) int {
 			names = append(names, k)
 		}
 		sort.Strings(names)
-		b, _ := json.Marshal(map[string]any{"eps": names, "inl_depth": c14InlDepth, "no_depth": c14NoDepth})
+		b, _ := json.Marshal(map[string]any{"eps": names, "inl_depth": c14InlDepth, "no_depth": c14NoDepth,
+			"hist_withs": clr14Withs, "hist_touches": clr14Touches, "hist_fams": clr14Fams, "hist_eps": clr14Eps})
 		fmt.Println(string(b))
 		return 0
 	}
+	if len(args) >= 1 && args[0] == "hist" {
+		return clr14Hist(args[1:])
+	}
 	if len(args) < 4 || args[0] != "run" {
-		fmt.Fprintln(os.Stderr, "usage: worker c14 run <cells.ndjson> <trace.ndjson> <detail.ndjson> | worker c14 list")
+		fmt.Fprintln(os.Stderr, "usage: worker c14 run <cells.ndjson> <trace.ndjson> <detail.ndjson> | worker c14 hist <behaviours.ndjson> <trace.ndjson> [<detail.ndjson>] | worker c14 list")
 		return 2
 	}
 	in, err := os.Open(args[1])
@@ -269,8 +274,7 @@ var c14Serial int
 func c14Run(c *c14Cell) (d c14Detail) {
 	d.ID = c.ID
 	d.Got = c14Got{K: "none", I: -1}
-	site, ok := c14Sites[c.Ep]
-	if !ok {
+	if _, ok := c14Sites[c.Ep]; !ok {
 		d.HErr = "entry point unknown to the worker"
 		return
 	}
@@ -393,6 +397,27 @@ func c14Run(c *c14Cell) (d c14Detail) {
 		buildFront(target)
 	}
 
+	c14Issue(c, &d, true)
+	return
+}
+
+// c14Issue issues one record through the entry point c.Ep with the front ends currently installed
+// in c14L / c14SL / c14Std, through a chain of c.Depth wrappers (inlinable or //go:noinline), and
+// projects the outcome into d: which frame of the real call stack the caller member names.
+// checkFmt: the record must be in the format the cell names (the history component lets loggers
+// keep whatever format their derivation gave them).
+func c14Issue(c *c14Cell, d *c14Detail, checkFmt bool) {
+	site, ok := c14Sites[c.Ep]
+	if !ok {
+		d.HErr = "entry point unknown to the worker"
+		return
+	}
+	if (c.Inl && c.Depth > c14InlDepth) || (!c.Inl && c.Depth > c14NoDepth) || c.Depth < 0 {
+		d.HErr = "wrapper depth not available in the worker"
+		return
+	}
+	d.Got = c14Got{K: "none", I: -1}
+
 	// -- the chain
 	var top func()
 	if c.Inl {
@@ -416,6 +441,7 @@ func c14Run(c *c14Cell) (d c14Detail) {
 		d.Got = c14Got{K: "norecord", I: -1}
 		return
 	}
+	d.User = d.User[:0]
 	for _, f := range c14rec.stack {
 		if c14IsUser(f.Func) {
 			d.User = append(d.User, f)
@@ -426,7 +452,7 @@ func c14Run(c *c14Cell) (d c14Detail) {
 		return
 	}
 	d.Shape, d.Caller = c14Decode(c14rec.payload)
-	if d.Shape != c.Fmt {
+	if checkFmt && d.Shape != c.Fmt {
 		d.HErr = "record is not in the format of the cell"
 		return
 	}
@@ -455,7 +481,6 @@ func c14Run(c *c14Cell) (d c14Detail) {
 			return
 		}
 	}
-	return
 }
 
 func c14IsUser(fn string) bool {
